@@ -145,7 +145,7 @@ def run(ck):
                         _check_kl(ck, inst, f, p, t, mname, cls)
                 # R2 for the mixed-state fidelity: rho / Z exactly once before leaving torch
                 if fname == "fidelity" and not wf:
-                    for p in rets[:1]:
+                    for p in rets:
                         it = p.interp
                         nc = [c for c in p.calls if c[0].endswith("cplx.numpy")]
                         zat = p.value[1].term.single_atom()
